@@ -48,11 +48,12 @@ func main() {
 	run.Rule("passwords x salt pairs x groups x (a, b) chosen by deterministic upward search in the reference so that A, B and S each take 0, 1 and 2 leading zero bytes (full product of the listed alphabets; the client's ephemeral a is injected through the owned random seam of the public GetInputCheckPassword); every ordered pair of distinct passwords; bad-B menu; empty password; non-trivial = distinct case whose answer was checked by the reference verifier")
 	run.Assume("reference R6 (harness/ref/srpref) implements the verifier side of core.telegram.org/api/srp with its own PBKDF2-HMAC-SHA512", "the client's random draw for a is owned through vrand (dry.RandomBytes call site)")
 	passwords := []string{"a", "correct horse", "пароль", "\x00x", strings.Repeat("z", 64)}
-	salts := [][2][]byte{{[]byte("saltsalt"), []byte("SALT2xyz")}, {{}, []byte(strings.Repeat("s", 32))}, {[]byte(strings.Repeat("t", 32)), {}}}
+	// the 2nd pair shares salt1 with the 1st and the 3rd shares salt2 with it: a value cached under too small a key shows up
+	salts := [][2][]byte{{[]byte("saltsalt"), []byte("SALT2xyz")}, {[]byte("saltsalt"), []byte("other-s2")}, {[]byte("other-s1"), []byte("SALT2xyz")}, {{}, []byte(strings.Repeat("s", 32))}, {[]byte(strings.Repeat("t", 32)), {}}}
 	groups := []srpref.Group{{P: hexBig(telegramPrime), G: 3}, {P: hexBig(rfc3526g14), G: 2}}
 	if !run.Thorough() {
 		passwords = passwords[:3]
-		salts = salts[:2]
+		salts = salts[:4]
 	}
 	var jobs []job
 	verifiers := map[string]*srpref.Verifier{}
